@@ -16,6 +16,7 @@
   only after reading the diff.
 -/
 import Petl.Gen.PullShapes
+import Petl.Gen.PullShapeSelfTest
 import PetlProofs.PullShape
 namespace Petl.C02
 open Petl.PullShape
@@ -149,6 +150,12 @@ theorem bounded_functions_never_scan_ahead :
     ∀ f ∈ Gen.pullShapes, ∀ n k, bound f.2 = some (n, k) →
       ∀ tr, Run f.2 tr → ∀ pre, pre <+: tr → (pulls pre : Int) ≤ (ylds pre : Int) + k :=
   fun f _ n k hb tr hr pre hp => bounded_never_scans_ahead f.2 n k hb tr hr pre hp
+
+/-- the translator on its own reference snippets (one-to-one, guarded header, filter, buffering, reading ahead, draining,
+    materialising, slices with a step, several sources in turn, expanding, delegating, early return, no source):
+    each translation has the look-ahead bound and the opacity written next to the snippet -/
+theorem pullshape_selftest :
+    ∀ c ∈ Gen.pullShapeSelfTest, summary c.2.1 = (c.2.2.1, c.2.2.2) := by decide +kernel
 
 /-- the one-to-one streaming loop `hdr = next(it); yield hdr'; for row in it: yield f(row)` has look-ahead 1 … -/
 example : bound (.seq .pull (.seq .yld (.forSrc .yld))) = some (0, 1) := by decide
